@@ -799,6 +799,7 @@ Definition mk_req (m : str) (h : headers) (p q : str) (b : option str) : request
 
 Definition ex_cfg : cfg :=
   {| c_signer := Some 1; c_hmac := Some [107;101;121]; c_skip := false; c_pass_token := false;
+     c_inject := [];
      c_cookie_name := s_cookie_name; c_preserve_host := false; c_thost := s_backend; c_tpath := []; c_tquery := [] |}.
 Definition ex_ident : option identity :=
   Some {| i_user := s_bob; i_email := s_bob_mail; i_groups := [s_g1]; i_token := [] |}.
